@@ -15,7 +15,7 @@ def make_conveyor(env, rng, kind=None, ragged=False):
         from factorysimpy.edges.continuous_conveyor import ConveyorBelt
         # integer belt length that is a multiple of the item length (anything else is geometry class 'ragged', D14)
         L = rng.choice((1, 2, 3, 4, 5, 6))
-        il = rng.choice([x for x in (1, 0.5, 0.25, 2, 3) if (L / x) == int(L / x) and L / x >= 2] or [0.5])
+        il = rng.choice([x for x in (1, 0.5, 0.25, 2, 3, 4, 5, 6) if (L / x) == int(L / x) and L / x >= 1] or [0.5])
         n = int(L / il)
         if ragged:
             L = rng.choice((1.5, 2.5, 5, 3.3))
@@ -28,7 +28,7 @@ def make_conveyor(env, rng, kind=None, ragged=False):
         slotted = False
     else:
         from factorysimpy.edges.slotted_conveyor import ConveyorBelt
-        cap = rng.choice((2, 3, 4, 5))
+        cap = rng.choice((1, 2, 3, 4, 5))
         d = rng.choice((0.5, 1, 0.25, 0.3, 0.7))
         acc = 1 if kind.endswith("_acc") else 0
         cv = ConveyorBelt(env, "CV", capacity=cap, delay=d, accumulating=acc)
@@ -56,10 +56,14 @@ def run_case(seed, params=None):
     nitems = rng.randint(8, 40)
     arr = rng.choice(("regular", "bursty", "irregular", "saturating"))
     cons = rng.choice(("eager", "eager", "short_stalls", "long_stalls", "repeated", "stall_on_entry")) if not params.get("eager") else "eager"
+    aligned = bool(params.get("aligned")) or rng.random() < 0.25
+    if aligned:
+        arr = "aligned"
+        cons = "aligned"
     gaps_irr = (0.13, 0.37, 0.5, 1.0, 1.41, 2.0, 0.77, s, 2 * s, T, s / 2, 3.3)
 
     def producer():
-        yield env.timeout(rng.choice((0, 0.5, 0.25)))
+        yield env.timeout(rng.choice((0, 0.5, 0.25)) if not aligned else rng.choice((0, s, 2 * s)))
         for i in range(nitems):
             tok = cv.reserve_put()
             yield tok
@@ -67,7 +71,9 @@ def run_case(seed, params=None):
             it.length = il
             cv.put(tok, it)
             H.log("p", "put", it.id, env.now)
-            if arr == "regular":
+            if arr == "aligned":
+                g = s * rng.choice((0, 1, 1, 2, 3, 5, int(round(T / s))))
+            elif arr == "regular":
                 g = max(s, 1.0)
             elif arr == "bursty":
                 g = 0 if i % 4 != 3 else rng.choice((T, 2 * T, 3.7))
@@ -86,7 +92,11 @@ def run_case(seed, params=None):
             it = cv.get(tok)
             H.log("c", "get", it.id, env.now)
             k += 1
-            if cons == "short_stalls" and k % 3 == 0:
+            if cons == "aligned":
+                m = rng.choice((0, 0, 0, 1, 2, 3, 7, int(round(T / s)) + 1))
+                if m:
+                    yield env.timeout(m * s)
+            elif cons == "short_stalls" and k % 3 == 0:
                 yield env.timeout(rng.choice((s / 2, s, 0.3, 1.5 * s)))
             elif cons == "long_stalls" and k % 4 == 0:
                 yield env.timeout(rng.choice((T, 2 * T, T + 0.37, 5)))
@@ -107,7 +117,7 @@ def run_case(seed, params=None):
     res = summarize(mon, sh, H, env, exc)
     res["nontrivial"]["C12"] = bool(getattr(orc, "nontrivial12", False)) or (len(orc.items) >= 8 and orc.n_exact >= 4 if hasattr(orc, "n_exact") else False)
     res["nontrivial"]["C13"] = bool(getattr(orc, "nontrivial13", False))
-    res["spec"] = {"engine": "E4", "seed": seed, "kind": kind, "arrivals": arr, "consumer": cons, "items": nitems, "geometry": cparams,
+    res["spec"] = {"engine": "E4", "seed": seed, "kind": kind, "arrivals": arr, "consumer": cons, "items": nitems, "geometry": cparams, "aligned": aligned,
                    "T": T, "step": s, "ragged": ragged}
     return res
 
